@@ -478,6 +478,19 @@ func (x *gen) usesNode(ref string, gr *sg.Grouping, feats []string, allMods []*s
 			a.Status = "deprecated"
 		}
 		u.Augments = append(u.Augments, a)
+		// a second augment whose target is a container the first one adds, written behind it or in front of it
+		if (t.node.Kind == "container" || t.node.Kind == "list") && a.When == "" && g.Chance(1, 4, "usesaugchain") {
+			cn := x.id("uach")
+			a.Kids = append(a.Kids, &sg.Node{Kind: "container", Name: cn})
+			b := &sg.Augment{Target: t.path + "/" + cn, Kids: []*sg.Node{x.leaf(x.id("uachl"))}}
+			b.Kids[0].Mandatory = ""
+			b.Status = a.Status // (a current augment may not name a deprecated node in its path)
+			if g.Bool("usesaugchainfirst") {
+				u.Augments = []*sg.Augment{b, a}
+			} else {
+				u.Augments = append(u.Augments, b)
+			}
+		}
 	}
 	topHasWhen, topHasStatus := false, false
 	for _, k := range gr.Kids {
